@@ -180,6 +180,20 @@ func c15Decode(api string, data []byte, o DecOpt) string {
 			}
 		}
 	}
+	// NewMapJson fails exactly when the standard tokenizer rejects the FIRST value (what follows it is
+	// not its business) or that value is neither an object nor an array
+	if api == "NewMapJson" {
+		var ref interface{}
+		rerr := json.NewDecoder(bytes.NewReader(data)).Decode(&ref)
+		_, isObj := ref.(map[string]interface{})
+		_, isArr := ref.([]interface{})
+		switch {
+		case rerr == nil && (isObj || isArr) && err != nil:
+			notes = append(notes, "JSONFIRST encoding/json accepts the first value (an object or array) but NewMapJson failed: "+oneLine(err.Error()))
+		case rerr != nil && err == nil && len(data) > 0: // ("empty or nil begets empty" is documented)
+			notes = append(notes, "JSONFIRST encoding/json rejects the first value but NewMapJson returned a Map")
+		}
+	}
 	// every Map produced by a decoder can be passed to the corresponding encoder
 	if err == nil && m != nil {
 		if isSeq {
@@ -286,6 +300,10 @@ func c15Gen(r *Rng, n int) []string {
 			} else if r.P(20) {
 				d = r.jsonStreamDoc()
 			}
+			if r.P(15) {
+				// something after the first document: another document, a stray closer, junk
+				d += r.Pick([]string{"", " ", "\n"}) + r.Pick([]string{r.Pick(seedDocs), "}", "]", "x", "</a>", "{\"z\":1}", "<z/>"})
+			}
 			b := []byte(d)
 			switch r.Intn(5) {
 			case 0:
@@ -304,7 +322,15 @@ func c15Gen(r *Rng, n int) []string {
 				}
 			}
 			o := r.decOpt(true)
-			ops = append(ops, fmt.Sprintf("implonly dec %s %s %s", encStr(r.Pick(decAPIs)), encStr(string(b)), o.enc()))
+			api := r.Pick(decAPIs)
+			if r.P(60) {
+				// mostly the decoders of the document's own kind
+				jsonish := len(d) > 0 && strings.ContainsAny(d[:1], "{[\"}] \xef") && !strings.Contains(d, "<")
+				for try := 0; try < 8 && strings.Contains(api, "Json") != jsonish; try++ {
+					api = r.Pick(decAPIs)
+				}
+			}
+			ops = append(ops, fmt.Sprintf("implonly dec %s %s %s", encStr(api), encStr(string(b)), o.enc()))
 		} else {
 			cfg := jsonShape
 			cfg.Keys = keyAlpha
